@@ -194,7 +194,10 @@ theorem C22_deck_empty_after_run (s : S1) (c : Ctl) (hi : Inv s) (hr : s.log.rul
   (deck_step s (.ctl c) hi hr (by intro c' h; cases h; exact hc) tag sid rest f fs hl hfl).2.2 c rfl hrun
 
 /-- **streak** (queue = the list in field `q` of the first loggee, named in the log's field list;
-histories that only `append` to it): records so far ++ pending = initial queue ++ appended. -/
+histories that do not rebind it): records so far ++ pending = initial queue ++ queued, where `queued`
+are the elements appended through the share (`share[q].append(e)`) and those appended through a
+reference to the list object that a producer took once and that is live (the object it names is
+still the field's value) — each logged exactly once, in order. -/
 theorem C22_streak_fifo_once (s : S1) (h : List Op) (hf : Fresh s) (hr : s.log.rule = .streak)
     (hp : proto .stopped h = true) (tag : String) (sid : Nat) (rest : Dict Nat) (q : String)
     (qs : List String) (items : List Elem) (hl : s.log.loggees = (tag, sid) :: rest)
@@ -202,7 +205,7 @@ theorem C22_streak_fifo_once (s : S1) (h : List Op) (hf : Fresh s) (hr : s.log.r
     (hq : dget (s.world.shares sid).data q = some (.list items))
     (hno : noOverwrite sid q h = true) :
     (s.exec h).recs.map (·.cells) ++ (pending (s.exec h).world sid q).map (fun e => [some e.toVal]) =
-      s.recs.map (·.cells) ++ (items ++ appended sid q h).map (fun e => [some e.toVal]) := by
+      s.recs.map (·.cells) ++ (items ++ queued s sid q h).map (fun e => [some e.toVal]) := by
   have := streak_exec s h hf.inv hr (by rw [hf.status]; exact hp) tag sid rest q qs items hl hfl hq hno
   simp only [streakPhi] at this
   rw [this]
@@ -247,6 +250,14 @@ theorem C22_mapping_setitem_queues (d : Dict Atom) (k : String) (a : Atom) (hk :
     congr 1
     exact ih hk.2
 
+/-- **the logger never rebinds a queue**: a control (a logger run: drain with `pop()` / `popitem()` /
+`pull()` in place) leaves every reference a producer holds exactly as it was — a live reference
+still names the field's own value, which the run has emptied
+(`C22_streak_empty_after_run`, `C22_streak_mapping_once`, `C22_deck_empty_after_run`). -/
+theorem C22_run_keeps_held_objects (s : S1) (c : Ctl) (hi : Inv s) (hc : ctlOk s.status c = true) :
+    (s.step (.ctl c)).1.world.held = s.world.held :=
+  ctl_held s c hi hc
+
 def qLog (r : Rule) : Log :=
   { rule := r, base := "q", loggees := [("x", 3)], fields := [("x", ["q"])] }
 def qS (r : Rule) : S1 :=
@@ -278,6 +289,23 @@ example : (mS.exec mH).recs.map (·.cells) =
     [[some (.tuple [.str "b", .int 1])], [some (.tuple [.str "a", .none])],
      [some (.tuple [.str "c", .str "x"])], [some (.tuple [.str "a", .int 9])]] ∧
     dget ((mS.exec mH).world.shares 3).data "q" = some (.dict true []) := by decide
+
+/-- a producer that took the queue list once (`hold`) and keeps appending through it, next to one
+that goes through the share; after rebinding the field (`poke`) the old reference is stale and what
+goes through it is lost to the logger (the producer's own doing), a fresh reference works again -/
+def hH : List Op :=
+  [.w (.hold 3 "q"), .ctl .start, .w (.happend 0 (.atom (.int 1))), .w (.append 3 "q" (.atom (.int 2))),
+   .w (.advance 1), .ctl .run, .w (.happend 0 (.tuple [.int 3])), .w (.advance 1), .ctl .run,
+   .ctl .stop]
+example : ((qS .streak).exec hH).recs.map (·.cells) =
+    [[some (.atom (.int 7))], [some (.atom (.int 1))], [some (.atom (.int 2))], [some (.tuple [.int 3])]] ∧
+    ((qS .streak).exec hH).world.held = [{ sid := 3, f := "q" }] ∧
+    pending ((qS .streak).exec hH).world 3 "q" = [] := by decide
+example : queued (qS .streak) 3 "q" hH = [.atom (.int 1), .atom (.int 2), .tuple [.int 3]] := by decide
+example : (((qS .streak).exec
+    [.w (.hold 3 "q"), .ctl .start, .w (.poke 3 "q" (.list [])), .w (.happend 0 (.atom (.int 1))),
+     .w (.hold 3 "q"), .w (.happend 1 (.atom (.int 2))), .ctl .run]).recs.map (·.cells)) =
+    [[some (.atom (.int 7))], [some (.atom (.int 2))]] := by decide
 
 /-! ## one header per new file -/
 
